@@ -198,7 +198,7 @@ for K in (2,):        # K = 3 gives no verdict within 60 min / 25 GB (MiniSat an
 MERFN = ['merge_patch', 'generate_merge_patch', 'sort_object', 'sort_list', 'compare_strings', 'cJSON_DetachItemFromObjectCaseSensitive', 'cJSON_DeleteItemFromObjectCaseSensitive', 'cJSON_AddItemToObject', 'cJSON_CreateObject', 'cJSON_CreateNull', 'cJSON_Delete']
 for K in (2, 3):
     QM(('C18',), 'mergeunit.apply.K%d' % K, 'harness/merge_unit.c', defs=['-DMODE=0', '-DK=%d' % K], unwind=K + 2, link=['cJSON.c'], stub=['merge_patch'], stub_lib='cJSON_Utils.c',
-       unwindset=ML(2 * K + 3, 120) + ['get_object_item.0:%d' % (2 * K + 2), 'get_object_item.1:%d' % (2 * K + 2), 'get_object_item$link1.0:%d' % (2 * K + 2), 'get_object_item$link1.1:%d' % (2 * K + 2), 'cJSON_Delete:1', 'cJSON_Delete.0:%d' % (K + 2), 'strcmp.0:3', 'strlen.0:3', 'vf_memcpy.0:66', 'count_members.0:%d' % (2 * K + 3), 'member.0:%d' % (2 * K + 3), 'check_wf16.0:%d' % (2 * K + 3), 'check_wf16.1:%d' % (2 * K + 3)],
+       unwindset=ML(2 * K + 3, 120) + ['get_object_item.0:%d' % (2 * K + 2), 'get_object_item.1:%d' % (2 * K + 2), 'get_object_item$link1.0:%d' % (2 * K + 2), 'get_object_item$link1.1:%d' % (2 * K + 2), 'cJSON_Delete:1', 'cJSON_Delete.0:%d' % (K + 2 if K == 2 else 2 * K + 2), 'strcmp.0:3', 'strlen.0:3', 'vf_memcpy.0:66', 'count_members.0:%d' % (2 * K + 3), 'member.0:%d' % (2 * K + 3), 'check_wf16.0:%d' % (2 * K + 3), 'check_wf16.1:%d' % (2 * K + 3)],
        cost=30, tiers=('quick', 'thorough') if K == 2 else ('thorough',), functions=MERFN, timeout=1800)
     QM(('C18', 'C19'), 'mergeunit.gen.K%d' % K, 'harness/merge_unit.c', defs=['-DMODE=1', '-DK=%d' % K], unwind=K + 2, link=['cJSON.c'], stub=['generate_merge_patch', 'compare_json'], stub_lib='cJSON_Utils.c',
        unwindset=ML(2 * K + 3, 120) + ['generate_merge_patch__real.0:%d' % (2 * K + 2), 'cJSON_Delete:1', 'cJSON_Delete.0:%d' % (K + 2), 'sort_list:%d' % (1 if K == 2 else 2), 'strcmp.0:3', 'strlen.0:3', 'vf_memcpy.0:66', 'count_members.0:%d' % (2 * K + 3), 'member.0:%d' % (2 * K + 3), 'check_wf16.0:%d' % (2 * K + 3), 'check_wf16.1:%d' % (2 * K + 3)],
